@@ -86,6 +86,17 @@ func VerifC07Diff() {
 		rt.Assert(d1.RemoveId(ids[i]) == nil, "remove-known-id")
 	}
 	d2.Set(e2...)
+	if hist == 1 {
+		// removals of ids the remote side does not hold: refused, and the index stays as it was
+		for i := 0; i < u; i++ {
+			if in2[i] {
+				continue
+			}
+			for k := rt.Choose(3); k > 0; k-- {
+				rt.Assert(d2.RemoveId(ids[i]) == ErrElementNotFound, "remove-unknown-id-refused")
+			}
+		}
+	}
 	ctx := context.Background()
 	if variant == 0 {
 		newIds, changedIds, removedIds, err := d1.Diff(ctx, d2)
